@@ -24,7 +24,7 @@
 
 typedef unsigned __int128 u128;
 
-typedef struct { char kind; int lo, hi, maxlen, len, prefix, tail; int offs[4]; int noffs; unsigned long long rlo, rhi; } ccase;
+typedef struct { char kind; int lo, hi, maxlen, len, prefix, tail; int offs[4]; int noffs; unsigned long long rlo, rhi; int ctxmode; } ccase;
 typedef struct { ccase *cases; int n; } cctx;
 
 static sigjmp_buf jb;
@@ -244,7 +244,25 @@ static void run_one(int idx, FILE *out, void *vctx) {
     cctx *c = vctx;
     ccase *k = &c->cases[idx];
     static int inited = 0;
-    if(!inited) { setup_guard(); zck = zck_create(); inited = 1; }
+    if(!inited) {
+        setup_guard();
+        zck = zck_create();
+        /* ctx=1: the codec is handed a context that is in the middle of writing a file; ctx=2: one that has a file open for
+         * reading (the property is about the codec - what the context is otherwise used for must not matter) */
+        if(zck && k->ctxmode) {
+            int fd = tmp_file("ci");
+            if(!zck_init_write(zck, fd) || zck_write(zck, "some chunk data", 15) != 15) die("compint: writer context");
+            if(k->ctxmode == 2) {
+                if(!zck_close(zck)) die("compint: close");
+                zck_free(&zck);
+                real_lseek(fd, 0, SEEK_SET);
+                zck = zck_create();
+                if(!zck || !zck_init_read(zck, fd)) die("compint: reader context");
+            }
+        }
+        if(!zck) die("compint: no context");
+        inited = 1;
+    }
     stats st = {0};
     st.idx = idx;
     st.out = out;
@@ -350,6 +368,7 @@ int cmd_compint(FILE *job, FILE *out) {
         k.tail = (int)kvi(t, n, "tail", 3);
         k.rlo = strtoull(kv(t, n, "lo", "0"), NULL, 0);
         k.rhi = strtoull(kv(t, n, "hi", "0"), NULL, 0);
+        k.ctxmode = (int)kvi(t, n, "ctx", 0);
         if(!strcmp(t[0], "decode")) k.kind = 'd';
         else if(!strcmp(t[0], "empty")) k.kind = 'e';
         else if(!strcmp(t[0], "beyond")) k.kind = 'b';
